@@ -171,9 +171,9 @@ def main(tier, replay=None, selftest=False):
                              "C10: enum %s (normalization %s): distinct values share a variant: %s" % (sorted(c["values"]), norm, names),
                              case_key="distinct")
     ck.sample({"enum": sorted(cases[0]["values"]), "normalization": cases[0]["normalization"], "expect": cases[0]["expect"]})
-    ck.assumptions += ["enum definitions whose values coincide after the chosen normalization, or contain a value spelled `Other`, are outside the property (Enums!Admissible)",
+    ck.assumptions += ["enum definitions whose values coincide after the chosen normalization (or that hold both `Other` and `Other_`) are outside the property (Enums!Admissible)",
                        "heck's UpperCamelCase on the value pool is a table in the specification"]
-    return ck.finish(exhaustive=True, rule="every enum definition of 1..%d values from a 14-name pool x normalization x 25 test strings x {response field, variable, input field}" % (2 if tier == "quick" else 3))
+    return ck.finish(exhaustive=True, rule="every enum definition of 1..%d values from a 16-name pool x normalization x 25 test strings x {response field, variable, input field}" % (2 if tier == "quick" else 3))
 
 
 if __name__ == "__main__":
